@@ -166,4 +166,17 @@ PROPS["C18"] = {
     "level_note": "Trusted: Lean kernel; Encode model; factgen. That the real validator implements the Lean semantics is C17's correspondence.",
 }
 
+PROPS["C10"] = {
+    "level": "proof",
+    "streams": ["fswrite"],
+    "timeout": 1200,
+    "trusted_base": ["rename(2)/renameat2 rebinds a name atomically; an inode keeps its data for whoever opened it (the kernel)",
+                     "os.CreateTemp returns a fresh name (O_EXCL) built from the pattern by replacing the last '*'",
+                     "strace output as the record of the writer's file-system calls; the build-tag hook verifPoint for kill points"],
+    "assumptions": ["page-cache visibility and durability after a machine crash are outside the model (process crash/kill only)"],
+    "technique": "Lean 4 proof: publication invariant over every prefix (crash point) and fault of the writer's operation sequence on an inode-level FS model; strace trace validation against the model; SIGKILL at every hook point; RLIMIT_FSIZE write failures; concurrent directory snapshots",
+    "level_text": "Kernel-checked theorems: any name CreateTemp can return for the regenerated pattern ends in .tmp and is not a Spec name; for every initial directory, target, content, fault (create fails, write stops after k bytes, rename fails) and every prefix of the writer's operations, each Spec-named entry reads exactly as before or is the target holding the complete new content; after any failed or interrupted write every Spec-named entry reads as before. Tied to the code on every run: (i) the writer runs in a child under strace and its openat/write/renameat2/unlink calls are parsed, checked to be one of the model's sequences and replayed on the model FS with the publication judge after every call (an in-place write or a Spec-named temp file is convicted by its own trace); (ii) the child is SIGKILLed at each of the five named points, with and without a previous file, for .json, .yaml and extension-less names, and the directory is listed and loaded by a fresh cache; (iii) RLIMIT_FSIZE makes the write fail at swept offsets; (iv) a reader takes whole-directory snapshots while a writer alternates two Specs.",
+    "level_note": "Partial: rename atomicity and inode semantics are the kernel's. Trusted: Lean kernel; strace parsing; the hook commit (build tag verif).",
+}
+
 NOT_APPLICABLE = {}
